@@ -1,4 +1,4 @@
-import DoltVerif.Lemmas.ProllyMergeLeafFinal
+import DoltVerif.Lemmas.ProllyMergeRange
 import DoltVerif.Props.C13
 /-!
 C14 — Three-way tree merges follow key-wise merge semantics.
@@ -390,6 +390,24 @@ theorem merge_paths_agree_leaf {cmp : Bytes → Bytes → Ordering} (ol : OrdLaw
   have h1 := (lookup_some_iff ol k sb a).mp ha
   have h2 := (lookup_some_iff ol k sr y).mp hy
   exact hexact _ _ (ol.eq_trans (ol.eq_symm h1.2) h2.2)
+
+/-- **range_patch_lookup** (obligation R3 of the range-patch part, proved): applying one range patch
+`(keyBelowStart, endKey] ↦ subtree` (or `↦ nothing` for a removed range) to a strictly ascending
+content replaces exactly the keys of that interval by the subtree's pairs and leaves every other key
+as it was. -/
+theorem range_patch_lookup {cmp : Bytes → Bytes → Ordering} (ol : OrdLaws cmp) (p : Patch) (hp : p.level ≠ 0) {l : List KV} (sl : Sorted cmp l)
+    (ins : List KV) (hto : ins = match p.to? with | some (.sub _ t) => t.flatten | _ => [])
+    (hlohi : ∀ a, p.keyBelowStart = some a → cmp a p.endKey ≠ .gt)
+    (hins : ∀ x ∈ ins, (∀ a, p.keyBelowStart = some a → cmp a x.1 = .lt) ∧ cmp x.1 p.endKey ≠ .gt) (k : Bytes) :
+    lookupKV cmp k (applyPatch cmp l p) =
+      if (∀ a, p.keyBelowStart = some a → cmp a k = .lt) ∧ cmp k p.endKey ≠ .gt then lookupKV cmp k ins
+      else lookupKV cmp k l := by
+  have hb : (p.level == 0) = false := by simpa using hp
+  unfold applyPatch
+  simp only [hb, Bool.false_eq_true, if_false]
+  have := lookup_replaceRange ol sl p.keyBelowStart p.endKey hlohi hins k
+  rw [hto] at this ⊢
+  exact this
 
 /-! ### statements that are compared by the harness, not proved -/
 
